@@ -22,7 +22,7 @@ package pe
 //      unambiguous (so the verifier's own matching must reproduce the builder's mapping), to exactly the credential
 //      the builder mapped to that descriptor, with no mapped descriptor missing and none added
 //  O6  ResolveConstraintsFields returns, per field id, the value at the path in the mapped credential / its capture
-//  O7  no panic (recovered in c12Run with a stable message, signature from h.PanicSignature)
+//  O7  no panic (recovered in C12Run with a stable message, signature from h.PanicSignature)
 //
 // Not demanded (classes "undecided:*", "selection-ambiguous", "O4-O5-not-demanded:*" count how often): verdicts where the
 // implementation documents an error (pattern with several capture groups, object value under a filter), definitions
@@ -30,7 +30,6 @@ package pe
 // satisfied-by-nothing reading, and Validate's behaviour when a credential fits several descriptors.
 
 import (
-	"encoding/base64"
 	"encoding/json"
 	"errors"
 	"fmt"
@@ -44,111 +43,51 @@ import (
 	"github.com/nuts-foundation/go-did/vc"
 	"verif.local/h"
 	"verif.local/h/jsonmut"
+	. "verif.local/h/pegen"
 )
 
-const (
-	c12Holder    = "did:example:holder"
-	c12HolderKey = "did:example:holder#key-1"
-	c12Date      = "2024-01-01T00:00:00Z"
-	c12DateUnix  = 1704067200
-)
-
-func c12B64(b []byte) string { return base64.RawURLEncoding.EncodeToString(b) }
-
-func c12MustJSON(x *h.Ctx, v any) []byte {
+func C12MustJSON(x *h.Ctx, v any) []byte {
 	b, err := json.Marshal(v)
 	x.NoErr(err, "marshal")
 	return b
 }
 
-// c12FakeJWT builds a compact JWS with the given protected header and payload. Nothing in package pe verifies
-// signatures; what matters is the alg header and whether the signature part is empty.
-func c12FakeJWT(x *h.Ctx, header, payload map[string]any, unsigned bool) string {
-	sig := ""
-	if !unsigned {
-		sig = c12B64([]byte("not-a-real-signature-0123456789abcdef0123456789abcdef0123456789ab"))
-	}
-	return c12B64(c12MustJSON(x, header)) + "." + c12B64(c12MustJSON(x, payload)) + "." + sig
+func C12FakeJWT(x *h.Ctx, header, payload map[string]any, unsigned bool) string {
+	raw, err := C12CompactJWS(header, payload, unsigned)
+	x.NoErr(err, "build JWS")
+	return raw
 }
 
-type c12Built struct {
+type C12Built struct {
 	label string // for messages: wallet position and id
-	spec  c12Cred
+	spec  C12Cred
 	vc    vc.VerifiableCredential
 	view  any // what a path is evaluated against (decoded JSON), built from the spec
-	facts c12CredFacts
+	facts C12CredFacts
 	raw   string
 }
 
-func c12SubjectWithID(c c12Cred) map[string]any {
-	s := map[string]any{}
-	for k, v := range c.Subject {
-		s[k] = v
-	}
-	s["id"] = c12Holder
-	return s
-}
-
-func c12Build(x *h.Ctx, c c12Cred) c12Built {
-	b := c12Built{spec: c}
-	ctx := []any{"https://www.w3.org/2018/credentials/v1"}
-	types := []any{"VerifiableCredential", c.Kind}
-	switch c.Fmt {
-	case "ldp_vc":
-		doc := map[string]any{
-			"@context":          ctx,
-			"type":              types,
-			"issuer":            c.Issuer,
-			"issuanceDate":      c12Date,
-			"credentialSubject": c12SubjectWithID(c),
-		}
-		if c.ID != "" {
-			doc["id"] = c.ID
-		}
-		if c.Proof != "" {
-			doc["proof"] = map[string]any{"type": c.Proof, "verificationMethod": c.Issuer + "#k", "proofPurpose": "assertionMethod", "created": c12Date, "jws": "e30..c2ln"}
-		}
-		b.raw = string(c12MustJSON(x, doc))
-		b.view = c12Norm(doc)
-		b.facts = c12CredFacts{format: "ldp_vc", proofType: c.Proof}
-	case "jwt_vc":
-		payload := map[string]any{
-			"iss": c.Issuer, "sub": c12Holder, "nbf": c12DateUnix,
-			"vc": map[string]any{"@context": ctx, "type": types, "credentialSubject": c12SubjectWithID(c)},
-		}
-		if c.ID != "" {
-			payload["jti"] = c.ID
-		}
-		b.raw = c12FakeJWT(x, map[string]any{"alg": c.Proof, "typ": "JWT", "kid": c.Issuer + "#k"}, payload, c.NoSig)
-		// JWT-VCs are matched on their decoded JSON form, in which credentialSubject and type stay arrays
-		view := map[string]any{
-			"@context": ctx, "type": types, "issuer": c.Issuer, "issuanceDate": c12Date,
-			"credentialSubject": []any{c12SubjectWithID(c)},
-		}
-		if c.ID != "" {
-			view["id"] = c.ID
-		}
-		b.view = c12Norm(view)
-		b.facts = c12CredFacts{format: "jwt_vc", alg: c.Proof, unsigned: c.NoSig}
-	default:
-		x.Fatalf("unknown credential format %q", c.Fmt)
-	}
+func C12Build(x *h.Ctx, c C12Cred) C12Built {
+	b := C12Built{spec: c}
+	var err error
+	b.raw, b.view, b.facts, err = C12RawCredential(c)
+	x.NoErr(err, "build generated credential")
 	parsed, err := vc.ParseVerifiableCredential(b.raw)
 	x.NoErr(err, "parse generated credential")
 	b.vc = *parsed
 	return b
 }
 
-// c12VP builds the presentation the holder would create for the selected credentials (vcr/holder/presenter.go),
+// C12VP builds the presentation the holder would create for the selected credentials (vcr/holder/presenter.go),
 // without a real signature: JSON-LD = marshalled VP + proof with verificationMethod; JWT = claims iss/sub/jti/vp.
-func c12VP(x *h.Ctx, format string, creds []vc.VerifiableCredential) string {
-	raw, err := c12VPRaw(format, creds)
+func C12VP(x *h.Ctx, format string, creds []vc.VerifiableCredential) string {
+	raw, err := C12VPRaw(format, creds)
 	x.NoErr(err, "build presentation")
 	return raw
 }
 
-func c12VPRaw(format string, creds []vc.VerifiableCredential) (string, error) {
-	holder := ssi.MustParseURI(c12Holder)
+func C12VPRaw(format string, creds []vc.VerifiableCredential) (string, error) {
+	holder := ssi.MustParseURI(C12Holder)
 	vp := vc.VerifiablePresentation{
 		Context:              []ssi.URI{vc.VCContextV1URI()},
 		Type:                 []ssi.URI{vc.VerifiablePresentationTypeV1URI()},
@@ -164,59 +103,39 @@ func c12VPRaw(format string, creds []vc.VerifiableCredential) (string, error) {
 		return "", err
 	}
 	if format == "jwt" {
-		hb, _ := json.Marshal(map[string]any{"alg": "ES256", "typ": "JWT", "kid": c12HolderKey})
-		pb, err := json.Marshal(map[string]any{"iss": c12Holder, "sub": c12Holder, "jti": c12Holder + "#vp-1", "nbf": c12DateUnix, "exp": c12DateUnix + 60, "vp": doc})
+		hb, _ := json.Marshal(map[string]any{"alg": "ES256", "typ": "JWT", "kid": C12HolderKey})
+		pb, err := json.Marshal(map[string]any{"iss": C12Holder, "sub": C12Holder, "jti": C12Holder + "#vp-1", "nbf": C12DateUnix, "exp": C12DateUnix + 60, "vp": doc})
 		if err != nil {
 			return "", err
 		}
-		return c12B64(hb) + "." + c12B64(pb) + "." + c12B64([]byte("not-a-real-signature-0123456789abcdef0123456789abcdef0123456789ab")), nil
+		return C12B64(hb) + "." + C12B64(pb) + "." + C12B64([]byte("not-a-real-signature-0123456789abcdef0123456789abcdef0123456789ab")), nil
 	}
-	doc["proof"] = map[string]any{"type": "JsonWebSignature2020", "verificationMethod": c12HolderKey, "proofPurpose": "authentication",
-		"created": c12Date, "challenge": "n-1", "domain": "verifier", "jws": "e30..c2ln"}
+	doc["proof"] = map[string]any{"type": "JsonWebSignature2020", "verificationMethod": C12HolderKey, "proofPurpose": "authentication",
+		"created": C12Date, "challenge": "n-1", "domain": "verifier", "jws": "e30..c2ln"}
 	out, err := json.Marshal(doc)
 	return string(out), err
 }
 
-// c12EnvelopeView is the JSON document mapping paths are relative to, built independently of ParseEnvelope:
+// C12EnvelopeView is the JSON document mapping paths are relative to, built independently of ParseEnvelope:
 // JSON-LD VP = the document, JWT VP = its vp claim (+ id from jti), array = list of those.
-func c12VPView(x *h.Ctx, raw string) any {
-	if strings.HasPrefix(raw, "{") {
-		var v any
-		x.NoErr(json.Unmarshal([]byte(raw), &v), "decode LD VP")
-		return v
-	}
-	parts := strings.Split(raw, ".")
-	if len(parts) != 3 {
-		x.Fatalf("not a compact JWS")
-	}
-	pb, err := base64.RawURLEncoding.DecodeString(parts[1])
-	x.NoErr(err, "decode JWT payload")
-	var payload map[string]any
-	x.NoErr(json.Unmarshal(pb, &payload), "decode JWT payload JSON")
-	view := map[string]any{}
-	if vp, ok := payload["vp"].(map[string]any); ok {
-		for k, v := range vp {
-			view[k] = v
-		}
-	}
-	if jti, ok := payload["jti"]; ok {
-		view["id"] = jti
-	}
-	return view
+func C12VPView(x *h.Ctx, raw string) any {
+	v, err := C12PresentationView(raw)
+	x.NoErr(err, "decode presentation")
+	return v
 }
 
 // ---------------------------------------------------------------------------------------------------------------------
 
-// c12Run wraps the case so that a panic of the code under test becomes a violation with a *stable* message
+// C12Run wraps the case so that a panic of the code under test becomes a violation with a *stable* message
 // (function names only). h.PanicIsViolation would do the same but puts the raw stack (addresses, goroutine ids)
 // into the failure text, which makes rapid treat the re-run of a shrunk case as a different failure and stop
 // shrinking.
-func c12Run(x *h.Ctx, c c12Case) {
-	defer c12RecoverPanic(x)
-	c12RunCase(x, c)
+func C12Run(x *h.Ctx, c C12Case) {
+	defer C12RecoverPanic(x)
+	C12RunCase(x, c)
 }
 
-func c12RecoverPanic(x *h.Ctx) {
+func C12RecoverPanic(x *h.Ctx) {
 	r := recover()
 	if r == nil {
 		return
@@ -243,7 +162,7 @@ func c12RecoverPanic(x *h.Ctx) {
 	x.Violate(sig, "panic: %v\ncall chain (innermost first): %s", r, strings.Join(frames, " <- "))
 }
 
-func c12RunCase(x *h.Ctx, c c12Case) {
+func C12RunCase(x *h.Ctx, c C12Case) {
 	if len(c.Wallet) > 12 || len(c.Def) > 1<<16 {
 		return
 	}
@@ -251,21 +170,21 @@ func c12RunCase(x *h.Ctx, c c12Case) {
 	if err != nil {
 		x.Fatalf("generated definition refused by ParsePresentationDefinition: %v\n%s", err, c.Def)
 	}
-	ref := c12ParseRefDef(c.Def)
-	if ref.unsupported != "" {
-		x.Fatalf("generated definition outside the reference subset: %s\n%s", ref.unsupported, c.Def)
+	ref := C12ParseRefDef(c.Def)
+	if ref.Unsupported != "" {
+		x.Fatalf("generated definition outside the reference subset: %s\n%s", ref.Unsupported, c.Def)
 	}
 
 	// ---- fixture: wallet
 	// Credentials are identified by content, never by id: two credentials are the same one iff their bytes are equal
 	// (an exact duplicate is legitimately de-duplicated); credentials may share an id or have none.
-	var built []c12Built
+	var built []C12Built
 	byRaw := map[string]int{} // raw -> first wallet index with these bytes (the canonical one)
 	canon := make([]int, len(c.Wallet))
 	var creds []vc.VerifiableCredential
 	idUsers := map[string][]int{}
 	for i, spec := range c.Wallet {
-		b := c12Build(x, spec)
+		b := C12Build(x, spec)
 		b.label = fmt.Sprintf("#%d(%s)", i, spec.ID)
 		if first, dup := byRaw[b.raw]; dup {
 			canon[i] = first
@@ -301,35 +220,35 @@ func c12RunCase(x *h.Ctx, c c12Case) {
 	for _, d := range ref.Descriptors {
 		if d.Constraints != nil {
 			for _, f := range d.Constraints.Fields {
-				if f.filter != nil {
+				if f.Flt != nil {
 					nFilters++
 				}
 			}
 		}
 	}
-	sat := make([][]c12Sat, len(ref.Descriptors))
+	sat := make([][]C12Sat, len(ref.Descriptors))
 	avail := map[string]bool{}
 	nearMatch := false
 	for di, d := range ref.Descriptors {
-		sat[di] = make([]c12Sat, len(built))
+		sat[di] = make([]C12Sat, len(built))
 		for ci, b := range built {
-			s := ref.sat(d, b.view, b.facts)
+			s := ref.Sat(d, b.view, b.facts)
 			sat[di][ci] = s
-			if s.errOK {
+			if s.ErrOK {
 				errOK = true
 			}
-			if s.objErr {
+			if s.ObjErr {
 				objErrAny = true
 			}
-			if s.ok {
+			if s.OK {
 				avail[d.ID] = true
 			}
-			if !s.errOK && s.fails == 1 && (s.conds >= 2 || s.lastRes) {
+			if !s.ErrOK && s.Fails == 1 && (s.Conds >= 2 || s.LastRes) {
 				nearMatch = true
 			}
 		}
 	}
-	exists, decided, undecidedWhy := ref.complete(avail)
+	exists, decided, undecidedWhy := ref.Complete(avail)
 	// shapes in which credential identity matters: a group whose descriptors are served by different credentials that
 	// share an id; requirements over a group that need at least two distinct credentials
 	if sharedID {
@@ -340,13 +259,13 @@ func c12RunCase(x *h.Ctx, c c12Case) {
 			}
 		}
 		for g := range groups {
-			members := ref.groupMembers(g)
+			members := ref.GroupMembers(g)
 			for ai, da := range members {
 				for _, db := range members[ai+1:] {
 					for ca := range built {
 						for cb := range built {
 							if canon[ca] != canon[cb] && built[ca].spec.ID != "" && built[ca].spec.ID == built[cb].spec.ID &&
-								sat[c12DescIndex(ref, da.ID)][ca].ok && sat[c12DescIndex(ref, db.ID)][cb].ok {
+								sat[C12DescIndex(ref, da.ID)][ca].OK && sat[C12DescIndex(ref, db.ID)][cb].OK {
 								x.Class("shared-id-credentials-serve-different-descriptors-of-one-group")
 							}
 						}
@@ -355,11 +274,11 @@ func c12RunCase(x *h.Ctx, c c12Case) {
 			}
 		}
 	}
-	var needTwo func(r *c12RefReq)
-	needTwo = func(r *c12RefReq) {
+	var needTwo func(r *C12RefReq)
+	needTwo = func(r *C12RefReq) {
 		if r.From != "" {
-			n := len(ref.groupMembers(r.From))
-			lo, _, _ := c12Bounds(r)
+			n := len(ref.GroupMembers(r.From))
+			lo, _, _ := C12Bounds(r)
 			if n >= 2 && (r.Rule == "all" || lo >= 2) {
 				x.Class("req:group-needs>=2-distinct-credentials")
 			}
@@ -381,7 +300,7 @@ func c12RunCase(x *h.Ctx, c c12Case) {
 	x.Classf("wallet=%d", len(built))
 	if len(ref.Reqs) > 0 {
 		x.Class("with-requirements")
-		c12ReqClasses(x, ref.Reqs, 0)
+		C12ReqClasses(x, ref.Reqs, 0)
 	} else {
 		x.Class("basic")
 	}
@@ -420,7 +339,7 @@ func c12RunCase(x *h.Ctx, c c12Case) {
 	if (nFilters > 0 || len(ref.Reqs) > 0) && nearMatch {
 		x.NonTrivial()
 	}
-	c12ShapeClasses(x, ref, built)
+	C12ShapeClasses(x, ref, built)
 
 	// ---- Match
 	selected, mappings, merr := def.Match(creds)
@@ -440,15 +359,15 @@ func c12RunCase(x *h.Ctx, c c12Case) {
 		case merr != nil && !noCreds && objErrAny && errors.Is(merr, ErrUnsupportedFilter):
 			x.Class("match:documented-unsupported-filter")
 		case merr != nil && !noCreds:
-			x.Violate("O3-unexpected-error:"+c12ErrClass(merr), "Match returned an error that is neither documented for this input nor ErrNoCredentials: %v", merr)
+			x.Violate("O3-unexpected-error:"+C12ErrClass(merr), "Match returned an error that is neither documented for this input nor ErrNoCredentials: %v", merr)
 		case noCreds && exists:
-			x.Violate("O3-false-no-credentials:"+c12ReqKind(ref), "Match reports missing credentials but the reference finds a complete selection (available descriptors %v): %v", c12Keys(avail), merr)
+			x.Violate("O3-false-no-credentials:"+C12ReqKind(ref), "Match reports missing credentials but the reference finds a complete selection (available descriptors %v): %v", C12Keys(avail), merr)
 		}
 	}
 	if merr != nil {
 		// Build must agree with Match (single wallet, credentials required)
 		b := def.PresentationSubmissionBuilder()
-		b.AddWallet(did.MustParseDID(c12Holder), creds)
+		b.AddWallet(did.MustParseDID(C12Holder), creds)
 		if _, _, berr := b.Build("ldp_vp"); berr == nil && len(ref.Descriptors) > 0 {
 			x.Violate("O3-build-without-match", "Match failed (%v) but Build returned a submission", merr)
 		}
@@ -477,7 +396,7 @@ func c12RunCase(x *h.Ctx, c c12Case) {
 		if m.Format != built[ci].spec.Fmt {
 			x.Violate("O1-mapping-format", "mapping %d says format %q for a %s credential", i, m.Format, built[ci].spec.Fmt)
 		}
-		d := ref.descriptor(m.Id)
+		d := ref.Descriptor(m.Id)
 		if d == nil {
 			x.Violate("O1-mapping-unknown-descriptor", "mapping %d refers to descriptor %q which the definition does not have", i, m.Id)
 			continue
@@ -486,13 +405,13 @@ func c12RunCase(x *h.Ctx, c c12Case) {
 			x.Violate("O1-descriptor-mapped-twice", "descriptor %q is mapped twice", m.Id)
 		}
 		honest[m.Id] = ci
-		di := c12DescIndex(ref, m.Id)
-		if s := sat[di][ci]; !s.ok && !s.errOK {
-			x.Violate("O1-mapped-credential-does-not-satisfy:"+c12WhyNot(ref, d, built[ci]), "descriptor %q is mapped to credential %s which does not satisfy it (%d of %d conditions fail)\ncredential view: %s",
-				m.Id, built[ci].label, s.fails, s.conds, c12MustJSON(x, built[ci].view))
+		di := C12DescIndex(ref, m.Id)
+		if s := sat[di][ci]; !s.OK && !s.ErrOK {
+			x.Violate("O1-mapped-credential-does-not-satisfy:"+C12WhyNot(ref, d, built[ci]), "descriptor %q is mapped to credential %s which does not satisfy it (%d of %d conditions fail)\ncredential view: %s",
+				m.Id, built[ci].label, s.Fails, s.Conds, C12MustJSON(x, built[ci].view))
 		}
 		for dj := range ref.Descriptors {
-			if sat[dj][ci].ok {
+			if sat[dj][ci].OK {
 				covered[ref.Descriptors[dj].ID] = true
 			}
 		}
@@ -504,10 +423,10 @@ func c12RunCase(x *h.Ctx, c c12Case) {
 		// everything downstream (Validate, extracted fields, forgeries) would only report consequences
 		return
 	} else if decided && !exists {
-		x.Violate("O3-match-without-complete-selection:"+c12UnmetReqKind(ref, avail), "Match succeeded (mappings %s) but the reference finds no complete selection (available descriptors %v)", c12MapStr(mappings), c12Keys(avail))
+		x.Violate("O3-match-without-complete-selection:"+C12UnmetReqKind(ref, avail), "Match succeeded (mappings %s) but the reference finds no complete selection (available descriptors %v)", C12MapStr(mappings), C12Keys(avail))
 	} else if !errOK {
-		if ex, dec, _ := ref.complete(covered); dec && !ex {
-			x.Violate("O3-partial-selection:"+c12UnmetReqKind(ref, covered), "Match succeeded with mappings %s, but the selected credentials do not fulfil the definition (descriptors satisfied by the selection: %v)", c12MapStr(mappings), c12Keys(covered))
+		if ex, dec, _ := ref.Complete(covered); dec && !ex {
+			x.Violate("O3-partial-selection:"+C12UnmetReqKind(ref, covered), "Match succeeded with mappings %s, but the selected credentials do not fulfil the definition (descriptors satisfied by the selection: %v)", C12MapStr(mappings), C12Keys(covered))
 		}
 	}
 	// O1-cap: more credentials than count/max allow
@@ -515,18 +434,18 @@ func c12RunCase(x *h.Ctx, c c12Case) {
 		cap := 0
 		contra := false
 		for _, r := range ref.Reqs {
-			cap += ref.capReq(r)
-			if o := ref.evalReq(r, avail, false); o.contra {
+			cap += ref.CapReq(r)
+			if o := ref.EvalReq(r, avail, false); o.Contra {
 				contra = true
 			}
 		}
 		if !contra && len(distinct) > cap {
-			x.Violate("O1-cap-exceeded", "%d distinct credentials selected, the submission requirements allow at most %d (mappings %s)", len(distinct), cap, c12MapStr(mappings))
+			x.Violate("O1-cap-exceeded", "%d distinct credentials selected, the submission requirements allow at most %d (mappings %s)", len(distinct), cap, C12MapStr(mappings))
 		}
 	}
 	// (2) counter only
 	if len(mappings) > 0 {
-		if ex, dec, _ := ref.complete(c12SetOf(honest)); dec && !ex {
+		if ex, dec, _ := ref.Complete(C12SetOf(honest)); dec && !ex {
 			x.Class("mapping-covers-less-than-selection")
 		}
 	} else {
@@ -535,7 +454,7 @@ func c12RunCase(x *h.Ctx, c c12Case) {
 
 	// ---- Build
 	builder := def.PresentationSubmissionBuilder()
-	builder.AddWallet(did.MustParseDID(c12Holder), creds)
+	builder.AddWallet(did.MustParseDID(C12Holder), creds)
 	vpFormat := "ldp_vp"
 	if strings.HasPrefix(c.Env, "jwt") {
 		vpFormat = "jwt_vp"
@@ -563,8 +482,8 @@ func c12RunCase(x *h.Ctx, c c12Case) {
 	if strings.HasPrefix(c.Env, "jwt") {
 		inner = "jwt"
 	}
-	mainVP := c12VP(x, inner, selectedVCs)
-	mainView := c12VPView(x, mainVP)
+	mainVP := C12VP(x, inner, selectedVCs)
+	mainView := C12VPView(x, mainVP)
 	var envRaw string
 	var envView any
 	vpIndex := -1
@@ -578,7 +497,7 @@ func c12RunCase(x *h.Ctx, c c12Case) {
 			if !distinct[canon[ci]] {
 				rest = append(rest, b.vc)
 				for di, d := range ref.Descriptors {
-					if sat[di][ci].ok {
+					if sat[di][ci].OK {
 						restAvail[d.ID] = true
 					}
 				}
@@ -592,21 +511,21 @@ func c12RunCase(x *h.Ctx, c c12Case) {
 		}
 		switch c.Extra {
 		case 0:
-			envRaw = string(c12MustJSON(x, []any{elem(mainVP)}))
+			envRaw = string(C12MustJSON(x, []any{elem(mainVP)}))
 			envView = []any{mainView}
 			vpIndex = 0
 		case 1:
-			other := c12VP(x, "ld", rest)
-			envRaw = string(c12MustJSON(x, []any{elem(mainVP), elem(other)}))
-			envView = []any{mainView, c12VPView(x, other)}
+			other := C12VP(x, "ld", rest)
+			envRaw = string(C12MustJSON(x, []any{elem(mainVP), elem(other)}))
+			envView = []any{mainView, C12VPView(x, other)}
 			vpIndex = 0
 		default:
-			other := c12VP(x, "ld", rest)
-			envRaw = string(c12MustJSON(x, []any{elem(other), elem(mainVP)}))
-			envView = []any{c12VPView(x, other), mainView}
+			other := C12VP(x, "ld", rest)
+			envRaw = string(C12MustJSON(x, []any{elem(other), elem(mainVP)}))
+			envView = []any{C12VPView(x, other), mainView}
 			vpIndex = 1
 			// Validate takes the first presentation that fulfils the definition on its own
-			if ex, dec, _ := ref.complete(restAvail); !dec || ex {
+			if ex, dec, _ := ref.Complete(restAvail); !dec || ex {
 				blockedByEarlierVP = true
 			}
 		}
@@ -627,7 +546,7 @@ func c12RunCase(x *h.Ctx, c c12Case) {
 	// the submission travels as JSON and is parsed (schema-validated) by the verifier
 	subForValidate := submission
 	if len(submission.DescriptorMap) > 0 {
-		sj := c12MustJSON(x, submission)
+		sj := C12MustJSON(x, submission)
 		parsedSub, perr := ParsePresentationSubmission(sj)
 		if perr != nil {
 			x.Violate("O4-submission-refused-by-parser", "the builder's submission is refused by ParsePresentationSubmission: %v\n%s", perr, sj)
@@ -641,7 +560,7 @@ func c12RunCase(x *h.Ctx, c c12Case) {
 	// contradictory bounds (min > max, max 0, count outside min..max): the selection is whatever the loop order makes
 	// of it and need not be reproducible from the presented subset; nothing is demanded of Validate then
 	for _, r := range ref.Reqs {
-		if o := ref.evalReq(r, avail, false); o.contra {
+		if o := ref.EvalReq(r, avail, false); o.Contra {
 			unambiguous = false
 			x.Class("O4-O5-not-demanded:contradictory-bounds")
 		}
@@ -651,7 +570,7 @@ func c12RunCase(x *h.Ctx, c c12Case) {
 	validateMayErr := false
 	for ci := range distinct {
 		for di := range ref.Descriptors {
-			if sat[di][ci].objErr {
+			if sat[di][ci].ObjErr {
 				validateMayErr = true
 			}
 		}
@@ -676,7 +595,7 @@ func c12RunCase(x *h.Ctx, c c12Case) {
 	for ci := range distinct {
 		n := 0
 		for di, d := range ref.Descriptors {
-			if sat[di][ci].ok {
+			if sat[di][ci].OK {
 				n++
 				descHits[d.ID]++
 			}
@@ -707,7 +626,7 @@ func c12RunCase(x *h.Ctx, c c12Case) {
 			x.Class("validate-own:documented-unsupported-filter")
 		} else if unambiguous && !blockedByEarlierVP {
 			x.Class("O4-checked")
-			x.Violate("O4-validate-rejects-own-submission:"+c.Env, "Validate rejects the submission the builder made for the same definition: %v\nsubmission: %s", verr, c12MustJSON(x, subForValidate))
+			x.Violate("O4-validate-rejects-own-submission:"+c.Env, "Validate rejects the submission the builder made for the same definition: %v\nsubmission: %s", verr, C12MustJSON(x, subForValidate))
 		}
 	} else {
 		x.Class("validate-own:accepted")
@@ -719,7 +638,7 @@ func c12RunCase(x *h.Ctx, c c12Case) {
 		}
 		for id, ci := range honest {
 			g, ok := got[id]
-			if !ok || !c12IsCredential(g, built[ci]) {
+			if !ok || !C12IsCredential(g, built[ci]) {
 				x.Violate("O4-validate-returns-other-mapping", "Validate maps descriptor %q to another credential than the builder (%s)", id, built[ci].label)
 			}
 		}
@@ -729,7 +648,7 @@ func c12RunCase(x *h.Ctx, c c12Case) {
 			x.Violate("O4-resolve-fails-after-validate", "Resolve fails on a submission Validate accepted: %v", rerr)
 		} else {
 			for id, ci := range honest {
-				if r, ok := res[id]; !ok || !c12IsCredential(r, built[ci]) {
+				if r, ok := res[id]; !ok || !C12IsCredential(r, built[ci]) {
 					x.Violate("O4-resolve-returns-other-mapping", "Resolve maps descriptor %q to another credential than the builder (%s)", id, built[ci].label)
 				}
 			}
@@ -749,14 +668,14 @@ func c12RunCase(x *h.Ctx, c c12Case) {
 		}
 		want := map[string]any{}
 		for id, ci := range honest {
-			for k, v := range sat[c12DescIndex(ref, id)][ci].values {
+			for k, v := range sat[C12DescIndex(ref, id)][ci].Values {
 				want[k] = v
 			}
 		}
 		if len(want) > 0 {
 			x.Class("O6-field-values-compared")
 			for _, v := range want {
-				x.Class("O6-value:" + c12JSONType(c12Norm(v)))
+				x.Class("O6-value:" + C12JSONType(C12Norm(v)))
 			}
 		}
 		fields, ferr := def.ResolveConstraintsFields(own)
@@ -765,7 +684,7 @@ func c12RunCase(x *h.Ctx, c c12Case) {
 		} else if ferr != nil {
 			x.Violate("O6-resolve-fields-error", "ResolveConstraintsFields failed on validated credentials: %v", ferr)
 		} else {
-			c12CompareFields(x, want, fields)
+			C12CompareFields(x, want, fields)
 		}
 		merged := map[string]vc.VerifiableCredential{}
 		for k, v := range own {
@@ -773,14 +692,14 @@ func c12RunCase(x *h.Ctx, c c12Case) {
 		}
 		var foreignDesc []string
 		for _, f := range c.Foreign {
-			if ref.descriptor(f.ID) != nil || len(built) == 0 {
+			if ref.Descriptor(f.ID) != nil || len(built) == 0 {
 				continue
 			}
 			ci := f.Cred % len(built)
 			merged[f.ID] = built[ci].vc
 			foreignDesc = append(foreignDesc, fmt.Sprintf("%q→%s", f.ID, built[ci].label))
 			for di := range ref.Descriptors {
-				if sat[di][ci].ok {
+				if sat[di][ci].OK {
 					x.Class("O6-foreign-credential-satisfies-a-descriptor")
 				}
 			}
@@ -799,7 +718,7 @@ func c12RunCase(x *h.Ctx, c c12Case) {
 				f, err := def.ResolveConstraintsFields(merged)
 				if err != nil {
 					failed++
-				} else if !c12DeepEqualJSON(want, map[string]any(f)) {
+				} else if !C12DeepEqualJSON(want, map[string]any(f)) {
 					bad++
 				}
 			}
@@ -808,7 +727,7 @@ func c12RunCase(x *h.Ctx, c c12Case) {
 				x.Violate("O6-foreign-entry-makes-resolve-fail", "ResolveConstraintsFields fails when the credential map also holds entries for descriptors of other definitions (%s)", strings.Join(foreignDesc, ", "))
 			} else if bad > 0 {
 				x.Violate("O6-foreign-entry-changes-result", "ResolveConstraintsFields returns other values than %s when the credential map also holds entries for descriptors of other definitions (%s)",
-					c12MustJSON(x, want), strings.Join(foreignDesc, ", "))
+					C12MustJSON(x, want), strings.Join(foreignDesc, ", "))
 			}
 		}
 	}
@@ -819,13 +738,13 @@ func c12RunCase(x *h.Ctx, c c12Case) {
 	}
 	x.Class("forgeries-tried")
 	for fi, fg := range c.Forge {
-		forged, ok := c12ApplyForge(x, ref, subForValidate, fg, len(selectedVCs))
+		forged, ok := C12ApplyForge(x, ref, subForValidate, fg, len(selectedVCs))
 		if !ok {
 			x.Class("forge-skipped:" + fg.Op)
 			continue
 		}
 		// identical to the honest submission: not a forgery
-		if string(c12MustJSON(x, forged.DescriptorMap)) == string(c12MustJSON(x, subForValidate.DescriptorMap)) {
+		if string(C12MustJSON(x, forged.DescriptorMap)) == string(C12MustJSON(x, subForValidate.DescriptorMap)) {
 			x.Class("forge-noop:" + fg.Op)
 			continue
 		}
@@ -852,50 +771,50 @@ func c12RunCase(x *h.Ctx, c c12Case) {
 		seen := map[string]bool{}
 		for ei, entry := range forged.DescriptorMap {
 			seen[entry.Id] = true
-			di := c12DescIndex(ref, entry.Id)
+			di := C12DescIndex(ref, entry.Id)
 			if di < 0 {
-				x.Violate("O5-forged-accepted:unknown-descriptor:"+fg.Op, "forgery %d (%s) accepted although entry %d maps %q, which is not a descriptor of the definition\n%s", fi, fg.Op, ei, entry.Id, c12MustJSON(x, forged.DescriptorMap))
+				x.Violate("O5-forged-accepted:unknown-descriptor:"+fg.Op, "forgery %d (%s) accepted although entry %d maps %q, which is not a descriptor of the definition\n%s", fi, fg.Op, ei, entry.Id, C12MustJSON(x, forged.DescriptorMap))
 				continue
 			}
-			val, state := c12ResolveEntry(entry, envView)
+			val, state := C12ResolveEntry(entry, envView)
 			if state == "unsupported" {
 				x.Class("forge-accepted-unchecked-path")
 				continue
 			}
 			if state == "unresolved" {
-				x.Violate("O5-forged-accepted:path-resolves-nothing:"+opOrDup(entry.Id), "forgery %d (%s) accepted although entry %d (%s) selects nothing in the envelope\n%s", fi, fg.Op, ei, c12PathStr(entry), c12MustJSON(x, forged.DescriptorMap))
+				x.Violate("O5-forged-accepted:path-resolves-nothing:"+opOrDup(entry.Id), "forgery %d (%s) accepted although entry %d (%s) selects nothing in the envelope\n%s", fi, fg.Op, ei, C12PathStr(entry), C12MustJSON(x, forged.DescriptorMap))
 				continue
 			}
 			which := -1
 			for ci := range built {
-				if presented[ci] && c12SameCredential(val, built[ci]) && (which < 0 || !distinct[which]) {
+				if presented[ci] && C12SameCredential(val, built[ci]) && (which < 0 || !distinct[which]) {
 					which = canon[ci]
 				}
 			}
 			if which < 0 {
 				x.Violate("O5-forged-accepted:not-a-presented-credential:"+opOrDup(entry.Id), "forgery %d (%s) accepted although entry %d (descriptor %q, path %s) does not select one of the presented credentials\n%s",
-					fi, fg.Op, ei, entry.Id, c12PathStr(entry), c12MustJSON(x, forged.DescriptorMap))
+					fi, fg.Op, ei, entry.Id, C12PathStr(entry), C12MustJSON(x, forged.DescriptorMap))
 				continue
 			}
-			if st := sat[di][which]; !st.ok && !st.errOK {
+			if st := sat[di][which]; !st.OK && !st.ErrOK {
 				x.Violate("O5-forged-accepted:credential-does-not-satisfy:"+opOrDup(entry.Id), "forgery %d (%s) accepted although entry %d maps descriptor %q to credential %s, which does not satisfy it\n%s",
-					fi, fg.Op, ei, entry.Id, built[which].label, c12MustJSON(x, forged.DescriptorMap))
+					fi, fg.Op, ei, entry.Id, built[which].label, C12MustJSON(x, forged.DescriptorMap))
 				continue
 			}
 			if !unambiguous || blockedByEarlierVP {
 				continue
 			}
 			if ci, mapped := honest[entry.Id]; !mapped {
-				x.Violate("O5-forged-accepted:surplus-descriptor:"+fg.Op, "forgery %d (%s) accepted although entry %d maps descriptor %q, which matching does not map\n%s", fi, fg.Op, ei, entry.Id, c12MustJSON(x, forged.DescriptorMap))
+				x.Violate("O5-forged-accepted:surplus-descriptor:"+fg.Op, "forgery %d (%s) accepted although entry %d maps descriptor %q, which matching does not map\n%s", fi, fg.Op, ei, entry.Id, C12MustJSON(x, forged.DescriptorMap))
 			} else if ci != which {
 				x.Violate("O5-forged-accepted:wrong-credential:"+opOrDup(entry.Id), "forgery %d (%s) accepted although entry %d (descriptor %q, path %s) selects %s, not the credential matching selects (%s)\n%s",
-					fi, fg.Op, ei, entry.Id, c12PathStr(entry), built[which].label, built[ci].label, c12MustJSON(x, forged.DescriptorMap))
+					fi, fg.Op, ei, entry.Id, C12PathStr(entry), built[which].label, built[ci].label, C12MustJSON(x, forged.DescriptorMap))
 			}
 		}
 		if unambiguous && !blockedByEarlierVP {
 			for id := range honest {
 				if !seen[id] {
-					x.Violate("O5-forged-accepted:incomplete:"+fg.Op, "forgery %d (%s) accepted although descriptor %q is not mapped\n%s", fi, fg.Op, id, c12MustJSON(x, forged.DescriptorMap))
+					x.Violate("O5-forged-accepted:incomplete:"+fg.Op, "forgery %d (%s) accepted although descriptor %q is not mapped\n%s", fi, fg.Op, id, C12MustJSON(x, forged.DescriptorMap))
 				}
 			}
 		} else {
@@ -907,7 +826,7 @@ func c12RunCase(x *h.Ctx, c c12Case) {
 // ---------------------------------------------------------------------------------------------------------------------
 // helpers of run
 
-func c12DescIndex(ref *c12RefDef, id string) int {
+func C12DescIndex(ref *C12RefDef, id string) int {
 	for i, d := range ref.Descriptors {
 		if d.ID == id {
 			return i
@@ -916,7 +835,7 @@ func c12DescIndex(ref *c12RefDef, id string) int {
 	return -1
 }
 
-func c12Keys(m map[string]bool) []string {
+func C12Keys(m map[string]bool) []string {
 	var out []string
 	for k, v := range m {
 		if v {
@@ -927,7 +846,7 @@ func c12Keys(m map[string]bool) []string {
 	return out
 }
 
-func c12SetOf(m map[string]int) map[string]bool {
+func C12SetOf(m map[string]int) map[string]bool {
 	out := map[string]bool{}
 	for k := range m {
 		out[k] = true
@@ -935,7 +854,7 @@ func c12SetOf(m map[string]int) map[string]bool {
 	return out
 }
 
-func c12MapStr(ms []InputDescriptorMappingObject) string {
+func C12MapStr(ms []InputDescriptorMappingObject) string {
 	var parts []string
 	for _, m := range ms {
 		parts = append(parts, m.Id+"→"+m.Path)
@@ -943,7 +862,7 @@ func c12MapStr(ms []InputDescriptorMappingObject) string {
 	return "[" + strings.Join(parts, " ") + "]"
 }
 
-func c12PathStr(e InputDescriptorMappingObject) string {
+func C12PathStr(e InputDescriptorMappingObject) string {
 	s := e.Path
 	for n := e.PathNested; n != nil; n = n.PathNested {
 		s += " / " + n.Path
@@ -951,8 +870,8 @@ func c12PathStr(e InputDescriptorMappingObject) string {
 	return s
 }
 
-// c12ErrClass gives a stable class for an unexpected error text (no random values).
-func c12ErrClass(err error) string {
+// C12ErrClass gives a stable class for an unexpected error text (no random values).
+func C12ErrClass(err error) string {
 	s := err.Error()
 	switch {
 	case strings.Contains(s, "is required but not available"):
@@ -967,14 +886,14 @@ func c12ErrClass(err error) string {
 	return "other"
 }
 
-// c12ReqKind is the discriminating feature for O3 signatures: which requirement features the definition uses.
-func c12ReqKind(ref *c12RefDef) string {
+// C12ReqKind is the discriminating feature for O3 signatures: which requirement features the definition uses.
+func C12ReqKind(ref *C12RefDef) string {
 	if len(ref.Reqs) == 0 {
 		return "basic"
 	}
 	feat := map[string]bool{}
-	var walk func(r *c12RefReq)
-	walk = func(r *c12RefReq) {
+	var walk func(r *C12RefReq)
+	walk = func(r *C12RefReq) {
 		k := r.Rule
 		if r.Rule == "pick" {
 			switch {
@@ -1001,11 +920,11 @@ func c12ReqKind(ref *c12RefDef) string {
 	for _, r := range ref.Reqs {
 		walk(r)
 	}
-	return strings.Join(c12Keys(feat), "+")
+	return strings.Join(C12Keys(feat), "+")
 }
 
-// c12OneReqKind names one requirement by its own features (not its children's).
-func c12OneReqKind(r *c12RefReq) string {
+// C12OneReqKind names one requirement by its own features (not its children's).
+func C12OneReqKind(r *C12RefReq) string {
 	k := r.Rule
 	if r.Rule == "pick" {
 		switch {
@@ -1027,26 +946,26 @@ func c12OneReqKind(r *c12RefReq) string {
 	return k
 }
 
-// c12UnmetReqKind: the first top-level requirement the given descriptor availability does not fulfil (one root cause,
+// C12UnmetReqKind: the first top-level requirement the given descriptor availability does not fulfil (one root cause,
 // one signature: the features of unrelated requirements stay out of it).
-func c12UnmetReqKind(ref *c12RefDef, avail map[string]bool) string {
+func C12UnmetReqKind(ref *C12RefDef, avail map[string]bool) string {
 	if len(ref.Reqs) == 0 {
 		return "basic"
 	}
 	for _, r := range ref.Reqs {
-		if o := ref.evalReq(r, avail, false); !o.sat {
-			return c12OneReqKind(r)
+		if o := ref.EvalReq(r, avail, false); !o.Sat {
+			return C12OneReqKind(r)
 		}
 	}
 	for _, r := range ref.Reqs {
-		if o := ref.evalReq(r, avail, true); !o.sat {
-			return c12OneReqKind(r)
+		if o := ref.EvalReq(r, avail, true); !o.Sat {
+			return C12OneReqKind(r)
 		}
 	}
 	return "?"
 }
 
-func c12ReqClasses(x *h.Ctx, reqs []*c12RefReq, depth int) {
+func C12ReqClasses(x *h.Ctx, reqs []*C12RefReq, depth int) {
 	for _, r := range reqs {
 		k := "req:" + r.Rule
 		if r.Rule == "pick" {
@@ -1078,13 +997,13 @@ func c12ReqClasses(x *h.Ctx, reqs []*c12RefReq, depth int) {
 		}
 		if len(r.FromNested) > 0 {
 			x.Classf("req:nested-depth>=%d", depth+1)
-			c12ReqClasses(x, r.FromNested, depth+1)
+			C12ReqClasses(x, r.FromNested, depth+1)
 		}
 	}
 }
 
-// c12ShapeClasses records which value shapes filters meet (measured by the reference, not by generator intent).
-func c12ShapeClasses(x *h.Ctx, ref *c12RefDef, built []c12Built) {
+// C12ShapeClasses records which value shapes filters meet (measured by the reference, not by generator intent).
+func C12ShapeClasses(x *h.Ctx, ref *C12RefDef, built []C12Built) {
 	for _, d := range ref.Descriptors {
 		if d.Constraints == nil {
 			continue
@@ -1097,116 +1016,116 @@ func c12ShapeClasses(x *h.Ctx, ref *c12RefDef, built []c12Built) {
 			if f.Optional != nil && *f.Optional {
 				x.Class("field:optional")
 			}
-			if f.filter == nil {
+			if f.Flt == nil {
 				x.Class("field:no-filter")
 				continue
 			}
 			kind := "type-only"
 			switch {
-			case f.filter.Enum != nil:
+			case f.Flt.Enum != nil:
 				kind = "enum"
-			case f.filter.Const != nil && f.filter.Pattern != nil:
+			case f.Flt.Const != nil && f.Flt.Pattern != nil:
 				kind = "const+pattern"
-			case f.filter.Const != nil:
+			case f.Flt.Const != nil:
 				kind = "const"
-			case f.filter.Pattern != nil:
+			case f.Flt.Pattern != nil:
 				kind = "pattern"
 			}
 			x.Class("filter:" + kind)
 			for _, b := range built {
 				for _, p := range f.Path {
-					steps, _ := c12ParsePath(p)
-					v, found := c12Eval(steps, b.view)
+					steps, _ := C12ParsePath(p)
+					v, found := C12Eval(steps, b.view)
 					if !found {
 						continue
 					}
-					r := c12MatchFilter(f.filter, v)
+					r := C12MatchFilter(f.Flt, v)
 					res := "no"
-					if r.errOK {
+					if r.ErrOK {
 						res = "undefined(documented-error)"
-					} else if r.match {
+					} else if r.Matched {
 						res = "yes"
 					}
-					if r.objErr {
+					if r.ObjErr {
 						res += "(object:may-error)"
 						if f.Optional != nil && *f.Optional {
 							x.Class("optional-filtered-field-meets-object")
 						}
 					}
-					shape := c12JSONType(v)
+					shape := C12JSONType(v)
 					if arr, ok := v.([]any); ok {
-						shape = "array-of-" + c12ElemType(arr)
+						shape = "array-of-" + C12ElemType(arr)
 					}
-					x.Classf("eval:%s/%s-on-%s=%s", *f.filter.Type, kind, shape, res)
+					x.Classf("eval:%s/%s-on-%s=%s", *f.Flt.Type, kind, shape, res)
 				}
 			}
 		}
 	}
 }
 
-func c12ElemType(arr []any) string {
+func C12ElemType(arr []any) string {
 	if len(arr) == 0 {
 		return "nothing"
 	}
-	t := c12JSONType(arr[0])
+	t := C12JSONType(arr[0])
 	for _, e := range arr[1:] {
-		if c12JSONType(e) != t {
+		if C12JSONType(e) != t {
 			return "mixed"
 		}
 	}
 	return t
 }
 
-// c12WhyNot names the first failing condition class for an O1 signature: filter kind + value shape, or format.
-func c12WhyNot(ref *c12RefDef, d *c12RefDescriptor, b c12Built) string {
+// C12WhyNot names the first failing condition class for an O1 signature: filter kind + value shape, or format.
+func C12WhyNot(ref *C12RefDef, d *C12RefDescriptor, b C12Built) string {
 	if d.Constraints != nil {
 		for i := range d.Constraints.Fields {
 			f := &d.Constraints.Fields[i]
-			r := c12MatchField(f, b.view)
-			if r.match || r.errOK {
+			r := C12MatchField(f, b.view)
+			if r.Matched || r.ErrOK {
 				continue
 			}
-			if f.filter == nil {
+			if f.Flt == nil {
 				return "field-without-value"
 			}
 			kind := "type-only"
 			switch {
-			case f.filter.Enum != nil:
+			case f.Flt.Enum != nil:
 				kind = "enum"
-			case f.filter.Const != nil:
+			case f.Flt.Const != nil:
 				kind = "const"
-			case f.filter.Pattern != nil:
+			case f.Flt.Pattern != nil:
 				kind = "pattern"
 			}
 			shape := "no-value"
 			for _, p := range f.Path {
-				steps, _ := c12ParsePath(p)
-				if v, found := c12Eval(steps, b.view); found {
-					shape = c12JSONType(v)
+				steps, _ := C12ParsePath(p)
+				if v, found := C12Eval(steps, b.view); found {
+					shape = C12JSONType(v)
 					break
 				}
 			}
 			return "filter-" + kind + "-on-" + shape
 		}
 	}
-	if !c12MatchFormat(ref.Format, b.facts) {
+	if !C12MatchFormat(ref.Format, b.facts) {
 		return "definition-format"
 	}
-	if !c12MatchFormat(d.Format, b.facts) {
+	if !C12MatchFormat(d.Format, b.facts) {
 		return "descriptor-format"
 	}
 	return "?"
 }
 
-func c12CompareFields(x *h.Ctx, want map[string]any, got map[string]interface{}) {
+func C12CompareFields(x *h.Ctx, want map[string]any, got map[string]interface{}) {
 	for k, wv := range want {
 		gv, ok := got[k]
 		if !ok {
-			x.Violate("O6-field-missing", "ResolveConstraintsFields has no value for field id %q (want %s)", k, c12MustJSON(x, wv))
+			x.Violate("O6-field-missing", "ResolveConstraintsFields has no value for field id %q (want %s)", k, C12MustJSON(x, wv))
 			continue
 		}
-		if !c12DeepEqualJSON(wv, gv) {
-			x.Violate("O6-field-value:"+c12JSONType(c12Norm(wv)), "field id %q: ResolveConstraintsFields returned %s, the mapped credential has %s", k, c12MustJSON(x, gv), c12MustJSON(x, wv))
+		if !C12DeepEqualJSON(wv, gv) {
+			x.Violate("O6-field-value:"+C12JSONType(C12Norm(wv)), "field id %q: ResolveConstraintsFields returned %s, the mapped credential has %s", k, C12MustJSON(x, gv), C12MustJSON(x, wv))
 		}
 	}
 	for k := range got {
@@ -1216,20 +1135,20 @@ func c12CompareFields(x *h.Ctx, want map[string]any, got map[string]interface{})
 	}
 }
 
-// c12ResolveEntry evaluates a descriptor-map entry on the envelope view with the reference path evaluator.
+// C12ResolveEntry evaluates a descriptor-map entry on the envelope view with the reference path evaluator.
 // state: "ok" (val is the selected JSON value), "unresolved" (selects nothing), "unsupported" (path outside the subset,
 // or a nested path below a JWT string, which the reference does not decode).
-func c12ResolveEntry(e InputDescriptorMappingObject, view any) (any, string) {
+func C12ResolveEntry(e InputDescriptorMappingObject, view any) (any, string) {
 	cur := view
 	for m := &e; m != nil; m = m.PathNested {
-		steps, ok := c12ParsePath(m.Path)
+		steps, ok := C12ParsePath(m.Path)
 		if !ok {
 			return nil, "unsupported"
 		}
 		if _, isStr := cur.(string); isStr {
 			return nil, "unsupported"
 		}
-		v, found := c12Eval(steps, cur)
+		v, found := C12Eval(steps, cur)
 		if !found {
 			return nil, "unresolved"
 		}
@@ -1238,9 +1157,9 @@ func c12ResolveEntry(e InputDescriptorMappingObject, view any) (any, string) {
 	return cur, "ok"
 }
 
-// c12IsCredential: is the parsed credential (possibly re-parsed out of an envelope) exactly the given wallet credential?
+// C12IsCredential: is the parsed credential (possibly re-parsed out of an envelope) exactly the given wallet credential?
 // Compared by content: JWT by its compact form, JSON-LD by its decoded JSON. Never by id.
-func c12IsCredential(v vc.VerifiableCredential, b c12Built) bool {
+func C12IsCredential(v vc.VerifiableCredential, b C12Built) bool {
 	if b.spec.Fmt == "jwt_vc" {
 		return v.Raw() == b.raw
 	}
@@ -1251,11 +1170,11 @@ func c12IsCredential(v vc.VerifiableCredential, b c12Built) bool {
 	if json.Unmarshal([]byte(v.Raw()), &got) != nil || json.Unmarshal([]byte(b.raw), &want) != nil {
 		return false
 	}
-	return c12DeepEqualJSON(got, want)
+	return C12DeepEqualJSON(got, want)
 }
 
-// c12SameCredential: is the JSON value selected in the envelope exactly the given wallet credential?
-func c12SameCredential(val any, b c12Built) bool {
+// C12SameCredential: is the JSON value selected in the envelope exactly the given wallet credential?
+func C12SameCredential(val any, b C12Built) bool {
 	switch tv := val.(type) {
 	case string:
 		return b.spec.Fmt == "jwt_vc" && tv == b.raw
@@ -1267,16 +1186,16 @@ func c12SameCredential(val any, b c12Built) bool {
 		if json.Unmarshal([]byte(b.raw), &doc) != nil {
 			return false
 		}
-		return c12DeepEqualJSON(doc, tv)
+		return C12DeepEqualJSON(doc, tv)
 	}
 	return false
 }
 
-// c12ApplyForge derives a forged submission from the honest one. ok=false: operator not applicable.
-func c12ApplyForge(x *h.Ctx, ref *c12RefDef, honest PresentationSubmission, fg c12Forge, nVCs int) (PresentationSubmission, bool) {
+// C12ApplyForge derives a forged submission from the honest one. ok=false: operator not applicable.
+func C12ApplyForge(x *h.Ctx, ref *C12RefDef, honest PresentationSubmission, fg C12Forge, nVCs int) (PresentationSubmission, bool) {
 	out := PresentationSubmission{Id: honest.Id, DefinitionId: honest.DefinitionId}
 	var dm []InputDescriptorMappingObject
-	b := c12MustJSON(x, honest.DescriptorMap)
+	b := C12MustJSON(x, honest.DescriptorMap)
 	x.NoErr(json.Unmarshal(b, &dm), "clone descriptor map")
 	n := len(dm)
 	if n == 0 {
@@ -1317,12 +1236,12 @@ func c12ApplyForge(x *h.Ctx, ref *c12RefDef, honest PresentationSubmission, fg c
 			return out, false
 		}
 		var cp InputDescriptorMappingObject
-		x.NoErr(json.Unmarshal(c12MustJSON(x, dm[i]), &cp), "clone entry")
+		x.NoErr(json.Unmarshal(C12MustJSON(x, dm[i]), &cp), "clone entry")
 		innermost(&cp).Path = vcPath((i + 1 + fg.J%(nVCs-1)) % nVCs)
 		dm = append([]InputDescriptorMappingObject{cp}, dm...)
 	case "surplus-unknown":
 		var cp InputDescriptorMappingObject
-		x.NoErr(json.Unmarshal(c12MustJSON(x, dm[i]), &cp), "clone entry")
+		x.NoErr(json.Unmarshal(C12MustJSON(x, dm[i]), &cp), "clone entry")
 		setID(&cp, "no-such-descriptor")
 		dm = append(dm, cp)
 	case "surplus-other-desc":
@@ -1341,7 +1260,7 @@ func c12ApplyForge(x *h.Ctx, ref *c12RefDef, honest PresentationSubmission, fg c
 			return out, false
 		}
 		var cp InputDescriptorMappingObject
-		x.NoErr(json.Unmarshal(c12MustJSON(x, dm[i]), &cp), "clone entry")
+		x.NoErr(json.Unmarshal(C12MustJSON(x, dm[i]), &cp), "clone entry")
 		setID(&cp, free[fg.J%len(free)])
 		dm = append(dm, cp)
 	case "retarget":
@@ -1397,8 +1316,8 @@ func c12ApplyForge(x *h.Ctx, ref *c12RefDef, honest PresentationSubmission, fg c
 
 // ---------------------------------------------------------------------------------------------------------------------
 
-func TestVerif_C12_PE(t *testing.T) { h.Check(t, "C12", c12Gen, c12Run, h.PanicIsViolation()) }
+func TestVerif_C12_PE(t *testing.T) { h.Check(t, "C12", C12Gen, C12Run, h.PanicIsViolation()) }
 
 func TestVerifReplay_C12_PE(t *testing.T) {
-	h.Replay(t, "C12", "TestVerif_C12_PE", c12Run, h.PanicIsViolation())
+	h.Replay(t, "C12", "TestVerif_C12_PE", C12Run, h.PanicIsViolation())
 }
